@@ -146,7 +146,7 @@ class HGen:
         return m, ne
 
 
-def gen_case(rng, hist_len=None, may=False, p_enum=0.0, p_sep=0.0, p_queued=0.0, p_reuse=0.0, **kw):
+def gen_case(rng, hist_len=None, may=False, p_enum=0.0, p_sep=0.0, p_queued=0.0, p_reuse=0.0, p_build=0.0, **kw):
     use_enum = rng.random() < p_enum if p_enum else False
     use_reuse = (not use_enum) and p_reuse and rng.random() < p_reuse
     use_sep = rng.choice(['.', '/', '->', '\u21a6']) if (p_sep and rng.random() < p_sep) else None
@@ -193,6 +193,16 @@ def gen_case(rng, hist_len=None, may=False, p_enum=0.0, p_sep=0.0, p_queued=0.0,
         out['sep'] = use_sep    # NestedState.separator of a subclass of the machine's state class
     if use_queued:
         out['queued'] = 1   # queued=True: events of the history go through the queue one by one
+    if p_build and not use_enum and rng.random() < p_build:
+        # the same machine built through other documented routes (see build_hsm): bit 1 = enter/exit callbacks
+        # registered afterwards with machine.on_enter / machine.on_exit; bit 2 = states that enter all their
+        # children declared with the 'parallel' key (plus an 'initial' key, which 'parallel' overrides);
+        # bit 4 = the states added by add_states(..., ignore_invalid_triggers=<not the machine's flag>) after
+        # construction, the model by add_model(initial=...)
+        b = rng.choice([1, 2, 3, 4, 4, 5, 6, 7])
+        out['build'] = b
+        if b & 4:
+            top['ignore'] = not m['ignore']
     return out
 
 
@@ -382,19 +392,36 @@ def build_hsm(case, world, cls, extra_kwargs=None, model=None):
                     before=[R('before', c) for c in t['before']], after=[R('after', c) for c in t['after']],
                     prepare=[R('prepare', c) for c in t['prepare']])
 
-    def sdict(d):
-        out = dict(name='s%d' % d['name'], on_enter=[R('enter', c) for c in d['enter']],
-                   on_exit=[R('exit', c) for c in d['exit']], on_final=[R('on_final', c) for c in d['onfinal']],
+    variant = case.get('build', 0)
+    later = []          # (absolute path, 'enter' | 'exit', callbacks) registered after construction
+    call_ignore = (not m['ignore']) if variant & 4 else None
+
+    def sdict(d, prefix=(), top=False):
+        path = tuple(prefix) + (d['name'],)
+        out = dict(name='s%d' % d['name'], on_final=[R('on_final', c) for c in d['onfinal']],
                    final=d['final'], ignore_invalid_triggers=d['ignore'])
-        if d['children']:
-            out['children'] = [sdict(c) for c in d['children']]
-        if d['initial']:
-            out['initial'] = 's%d' % d['initial'][0] if len(d['initial']) == 1 else ['s%d' % i for i in d['initial']]
+        if variant & 1:
+            later.append((path, 'enter', [R('enter', c) for c in d['enter']]))
+            later.append((path, 'exit', [R('exit', c) for c in d['exit']]))
+        else:
+            out.update(on_enter=[R('enter', c) for c in d['enter']], on_exit=[R('exit', c) for c in d['exit']])
+        if top and call_ignore is not None and d['ignore'] == call_ignore:
+            del out['ignore_invalid_triggers']          # left to the flag of the add_states call
+        kids = [sdict(c, path) for c in d['children']]
+        names = [c['name'] for c in d['children']]
+        if (variant & 2) and len(names) >= 2 and list(d['initial']) == names:
+            out['parallel'] = kids
+            out['initial'] = 's%d' % names[-1]             # overridden by 'parallel'
+        else:
+            if kids:
+                out['children'] = kids
+            if d['initial']:
+                out['initial'] = 's%d' % d['initial'][0] if len(d['initial']) == 1 else ['s%d' % i for i in d['initial']]
         if d['events']:
             out['transitions'] = [tdict(e, t) for e, ts in d['events'] for t in ts]
         return out
     model = model if model is not None else (flat.FalsyModel() if case.get('falsy') else Model())
-    kw = dict(model=model, states=[sdict(d) for d in m['states']], initial=sname(case['init']), auto_transitions=False,
+    kw = dict(model=model, states=[sdict(d, (), True) for d in m['states']], initial=sname(case['init']), auto_transitions=False,
               send_event=m['send'], ignore_invalid_triggers=m['ignore'],
               prepare_event=[R('prepare_event', c) for c in m['prepare_event']],
               before_state_change=[R('before_sc', c) for c in m['before_sc']],
@@ -404,7 +431,19 @@ def build_hsm(case, world, cls, extra_kwargs=None, model=None):
               on_final=[R('on_final', c) for c in m['on_final']])
     if extra_kwargs:
         kw.update(extra_kwargs)
-    machine = cls(**kw)
+    if call_ignore is not None:
+        states = kw.pop('states')
+        init = kw.pop('initial')
+        kw['model'] = None
+        kw['initial'] = None
+        machine = cls(**kw)
+        machine.add_states(states, ignore_invalid_triggers=call_ignore)
+        machine.add_model(model, initial=init)
+    else:
+        machine = cls(**kw)
+    for path, what, cbs in later:
+        for cb in cbs:
+            (machine.on_enter if what == 'enter' else machine.on_exit)(sname(list(path)), cb)
     for e, ts in m['events']:
         for t in ts:
             machine.add_transition(**tdict(e, t))
